@@ -411,6 +411,7 @@ var stmtPool = []string{
 	"x = len(message)\nadd_key(x)", "if n == 3 { add_key(three, true) } else { add_key(three, false) }", "for i in [1, 2] { add_key(last, i) }",
 	"add_key(time, 1600000000123456789)", "add_key(time, \"not an int\")", "rename(time, n)", "cast(time, \"int\")",
 	"add_key(ml, '''a\r\nb\r\n''')", "add_key(mlen, len(\"\"\"\r\n\r\n\"\"\"))", "if message == \"\"\"x\r\ny\"\"\" { add_key(crlf_match, true) }", "replace(message, '''\r\n''', \"|\")", "add_key(cr, \"a\\rb\")\r\nadd_key(after_crlf_line, 1)",
+	"add_key(amp, \"a & b < c > d\")", "add_key(esc, \"\\\\u0026 \\\\u003c \\\\u003e\")", "set_tag(amptag, \"x&y<z>\")", "set_measurement(\"m&<>\")", "add_key(ctl, \"tab\\there\\nline\")",
 	"add_key(nilkey, nil)", "nv = nil\nadd_key(nv)", "add_key(emptystr, \"\")", "add_key(zero, 0)", "add_key(f0, 0.0)", "add_key(no, false)", "add_key(m, {\"a\": nil})", "add_key(message, nil)", "set_tag(emptytag, \"\")",
 	"grok(_, \"%{WORD:w1} %{WORD:w2}\")", "grok(msg, \"%{WORD:first}\")", "printf(\"%v\\n\", message)", "exit()\nadd_key(never, 1)",
 }
@@ -419,6 +420,8 @@ var failingRun = []string{"x = 1 + \"a\"", "l = [1]\ny = l[5]", "z = 0\nq = 1 / 
 var failingLoad = []string{"nosuch()", "add_key()", "cast(a, \"zzz\")", "x = = 1", "break", "grok(_, \"%{NOSUCH}\")"}
 
 var lpInputs = []string{
+	"cpu,host=h1 usage=1.5,n=3i 1600000000000000000\nthis line is garbage\n", "garbage first\ncpu,host=h1 usage=2.5,n=3i 1600000000000000001\n", "cpu,host=h1 usage=1.5 1\ncpu,host=h2 usage= 2\nmem used=1i 3\n", "cpu usage=1i 1\n\n\x00\n",
+	"cpu,host=h1 msg=\"a & b < c > \\\\u0026\",n=3i 1600000000000000000\n",
 	"", "not line protocol at all", "cpu,host=h1", "cpu usage=", "# only a comment\n",
 	"cpu,host=h1 usage=1.5,n=3i,msg=\"x y\",ok=true 1600000000000000000\n",
 	"mem used=10i\n",
@@ -432,7 +435,7 @@ var lpInputs = []string{
 	"ev time=5i\n",
 }
 
-var textInputs = []string{"x\r\ny", "line1\r\nline2\r\n", "hello world", "two words here", "", "  padded  ", "héllo wörld", "line1\nline2", "42"}
+var textInputs = []string{"{\"url\":\"/q?a=1\\u0026b=2\",\"t\":\"\\u003cb\\u003e\"}", "a & b < c > d \\u0026 \\\\u003e", "tab\there \"quoted\" back\\slash \x7f \u2028 \u00e9 \U0001F600", "\\n literal backslash-n and a real one:\n.", "</script><!-- & -->","x\r\ny", "line1\r\nline2\r\n", "hello world", "two words here", "", "  padded  ", "héllo wörld", "line1\nline2", "42"}
 
 func genCase(t *rapid.T) (*tcase, bool, []string) {
 	c := &tcase{Scripts: map[string]string{}, Other: map[string]string{}}
